@@ -34,6 +34,10 @@ import RV.Base.Proto
     jstr-dumps <0|1> <s>*       -> = <s>*                         pyDumpsStr (ensure_ascii = 0|1), quotes included
     jstr-loads <s>*             -> = (ok:<s> | err:<Kind>)*       jsonLoadsStr on whole string tokens
     jstr-spell (<s>/<k.k.k|->)* -> = <s>*                         '"' ++ jsonSpell ks s ++ '"'
+    ctext-parse <s>             -> ok <Table> | err:<Kind>        csvParse (a whole CSV document)
+    ctext-of <s>                -> ok <Result> | err:<Kind>       ofCsv (csvParse text)
+    ctext-write <Result>        -> CTEXT <s> | err:<Kind>         csvWrite (toCsv r)
+    ctext-render <lf> <nrows> (<nfields> (<q>:<s>)^nfields)^nrows -> = <s>     csvRender (reference writer with choices)
 -/
 open RV RV.C16 RV.Proto
 
@@ -212,6 +216,19 @@ def decSpell (w : String) : Option (Str × List Nat) :=
     pure (s, ks)
   | _ => none
 
+def decQField (w : String) : Option (Bool × Str) :=
+  match w.splitOn ":" with
+  | [q, s] => (decStr s).map (fun x => (q = "1", x))
+  | _ => none
+
+def decQRows : Nat → List String → List (List (Bool × Str)) → Option (List (List (Bool × Str)))
+  | 0, ws, acc => if ws.isEmpty then some acc.reverse else none
+  | k + 1, m :: ws, acc => do
+    let m ← m.toNat?
+    let (fs, ws) ← takeN decQField m ws
+    decQRows k ws (fs :: acc)
+  | _ + 1, [], _ => none
+
 def withResult (ws : List String) (f : Result → String) : String :=
   match decResult ws with
   | some (r, []) => f r
@@ -303,6 +320,23 @@ def step (_ : Unit) : List String → Unit × String
   | "jstr-spell" :: ws =>
     match ws.mapM decSpell with
     | some ps => ((), " ".intercalate ("=" :: ps.map (fun (s, ks) => encStr ('"' :: (jsonSpell ks s ++ ['"'])))))
+    | none => ((), "bad-op")
+  | ["ctext-parse", w] =>
+    match decStr w with
+    | some t => ((), match csvParse t with | .ok tb => "ok " ++ encTable tb | .error e => "err:" ++ encErr e)
+    | none => ((), "bad-op")
+  | ["ctext-of", w] =>
+    match decStr w with
+    | some t => ((), match csvParse t with | .ok tb => encOut (ofCsv tb) | .error e => "err:" ++ encErr e)
+    | none => ((), "bad-op")
+  | "ctext-write" :: ws =>
+    ((), withResult ws (fun r => match toCsv r with | .ok t => "CTEXT " ++ encStr (csvWrite t) | .error e => "err:" ++ encErr e))
+  | "ctext-render" :: lf :: n :: ws =>
+    match n.toNat? with
+    | some n =>
+      match decQRows n ws [] with
+      | some rows => ((), "= " ++ encStr (csvRender (rows.map (·.map (·.1))) (lf = "1") (rows.map (·.map (·.2)))))
+      | none => ((), "bad-op")
     | none => ((), "bad-op")
   | ["const", w] => ((), w)
   | _ => ((), "bad-op")
